@@ -9,6 +9,7 @@ import (
 	"os"
 	"os/exec"
 	"path/filepath"
+	"regexp"
 	"runtime"
 	"sort"
 	"strconv"
@@ -26,12 +27,14 @@ type PropSpec struct {
 	QuickSecs int // wall budget for the run phase
 	ThorRuns  int
 	ThorSecs  int
-	Rule      string
-	Assume    []string
-	Profiles  []string // profiles cycled over jobs ("" = scenario decides from the tape)
-	Cells     int      // >0: enumerated matrix; job i gets knob cell = i % Cells
-	Real      string   // components running real code (default: the full-stack list)
-	Stub      string
+	// race pass (optional): runs on a worker built with the race detector, after the main pass
+	RaceQuick, RaceThor int
+	Rule                string
+	Assume              []string
+	Profiles            []string // profiles cycled over jobs ("" = scenario decides from the tape)
+	Cells               int      // >0: enumerated matrix; job i gets knob cell = i % Cells
+	Real                string   // components running real code (default: the full-stack list)
+	Stub                string
 }
 
 var commonAssume = []string{
@@ -126,26 +129,27 @@ func treeFingerprint(repo string) string {
 }
 
 type agg struct {
-	watchdogRetries    int
-	runs, nontriv      int
-	hashes             map[string]struct{}
-	ntHashes           map[string]struct{}
-	shapes             map[string]struct{}
-	states             map[string]struct{}
-	trans              map[string]struct{}
-	faults             map[string]int
-	probes             map[string]int
-	simNanos           int64
-	extSteps, schSteps int64
-	choice, nonNat     int64
-	holds, twins       int64
-	injDelay           int64
-	reexec             int
-	sigSites           map[string]struct{}
-	samples            []map[string]interface{}
-	knownHits          map[string]int
-	crashes            int
-	profiles           map[string]int
+	raceRuns, raceIgnored int
+	watchdogRetries       int
+	runs, nontriv         int
+	hashes                map[string]struct{}
+	ntHashes              map[string]struct{}
+	shapes                map[string]struct{}
+	states                map[string]struct{}
+	trans                 map[string]struct{}
+	faults                map[string]int
+	probes                map[string]int
+	simNanos              int64
+	extSteps, schSteps    int64
+	choice, nonNat        int64
+	holds, twins          int64
+	injDelay              int64
+	reexec                int
+	sigSites              map[string]struct{}
+	samples               []map[string]interface{}
+	knownHits             map[string]int
+	crashes               int
+	profiles              map[string]int
 }
 
 func newAgg() *agg {
@@ -210,6 +214,7 @@ func cmdCheck(args []string) int {
 	}
 	runsOverride, secsOverride := 0, 0
 	collect := false
+	racePass := false
 	classes := map[string][]int64{}
 	for i := 1; i < len(args); i++ {
 		switch args[i] {
@@ -224,6 +229,8 @@ func cmdCheck(args []string) int {
 			secsOverride, _ = strconv.Atoi(args[i])
 		case "--collect":
 			collect = true
+		case "--race":
+			racePass = true
 		}
 	}
 	spec := specs[id]
@@ -235,6 +242,15 @@ func cmdCheck(args []string) int {
 	seed := envInt("VERIF_SEED", 1)
 	vdir := verifDir()
 	repo := repoDir()
+	if racePass {
+		// the race pass: the same scenarios on a worker built with the race detector (see DESIGN 11.12)
+		if spec.RaceQuick == 0 && runsOverride == 0 {
+			fmt.Fprintln(os.Stderr, "no race pass is defined for", id)
+			return 2
+		}
+		os.Setenv("VERIF_RACE", "1")
+		seed += 7000 // other cases than the main pass
+	}
 	b, err := build.Build(repo, filepath.Join(vdir, "sim"))
 	if b != nil {
 		defer os.RemoveAll(b.Scratch)
@@ -249,6 +265,12 @@ func cmdCheck(args []string) int {
 	runs, secs := spec.QuickRuns, spec.QuickSecs
 	if tier == "thorough" {
 		runs, secs = spec.ThorRuns, spec.ThorSecs
+	}
+	if racePass {
+		runs = spec.RaceQuick
+		if tier == "thorough" {
+			runs = spec.RaceThor
+		}
 	}
 	if runsOverride > 0 {
 		runs = runsOverride
@@ -276,6 +298,9 @@ func cmdCheck(args []string) int {
 				return
 			}
 			j := &Job{ID: i + 1, Prop: id, Profile: profiles[i%len(profiles)], Seed: seed*1000003 + int64(i), Tier: tier, WantLog: i < 3*len(profiles)}
+			if racePass {
+				j.RaceFiles = anchorFiles(vdir, id)
+			}
 			if spec.Cells > 0 {
 				j.Knobs = map[string]int{"cell": i % spec.Cells}
 			}
@@ -325,7 +350,11 @@ func cmdCheck(args []string) int {
 					k = k[:260]
 				}
 				_ = disc
-				classes[rule+" | known="+res.Known] = append(classes[rule+" | known="+res.Known], res.Seed)
+				ck := rule + " | known=" + res.Known
+				if strings.HasSuffix(rule, ".data-race") {
+					ck += " | " + res.Viol.Msg
+				}
+				classes[ck] = append(classes[ck], res.Seed)
 				continue
 			}
 			if failure == nil {
@@ -395,6 +424,46 @@ func cmdCheck(args []string) int {
 	for _, kf := range known {
 		if kf.Kind == "known" && kf.Property == id {
 			fmt.Printf("KNOWN-FINDING: property=%s %s (rule %s; hit %d times in this run)\n", id, kf.What, kf.Rule, a.knownHits[kf.Rule+" "+kf.Match])
+		}
+	}
+	if racePass {
+		// sub-pass: summary on stdout for the parent, no evidence file of its own
+		if exit == 1 {
+			fmt.Printf("VIOLATION property=%s replay=%s\n", id, replayPath)
+		} else {
+			fmt.Printf("RACEPASS property=%s runs=%d harness_reports_ignored=%d wall=%.1fs\n", id, a.runs, a.probes["race-report-in-harness-code-ignored"], time.Since(start).Seconds())
+		}
+		return exit
+	}
+	if exit == 0 && spec.RaceQuick > 0 && !collect && runsOverride == 0 {
+		self, _ := os.Executable()
+		cmd := exec.Command(self, "check", id, "--tier", tier, "--race")
+		cmd.Env = os.Environ()
+		out, rerr := cmd.CombinedOutput()
+		rc := 0
+		if rerr != nil {
+			rc = 2
+			if ee, ok := rerr.(*exec.ExitError); ok {
+				rc = ee.ExitCode()
+			}
+		}
+		switch rc {
+		case 0:
+			if m := regexp.MustCompile(`RACEPASS property=\S+ runs=(\d+) harness_reports_ignored=(\d+) wall=([0-9.]+)s`).FindStringSubmatch(string(out)); m != nil {
+				n, _ := strconv.Atoi(m[1])
+				ig, _ := strconv.Atoi(m[2])
+				a.raceRuns, a.raceIgnored = n, ig
+			} else {
+				fmt.Fprintln(os.Stderr, "HARNESS TROUBLE: race pass gave no summary:\n"+lastN(string(out), 3000))
+				return 2
+			}
+		case 1:
+			os.Stdout.Write(out)
+			writeEvidence(vdir, spec, tier, seed, a, time.Since(start).Seconds(), buildSecs, runSecs, 1, nw, treeFingerprint(repo))
+			return 1
+		default:
+			fmt.Fprintln(os.Stderr, "HARNESS TROUBLE: race pass failed:\n"+lastN(string(out), 3000))
+			return 2
 		}
 	}
 	writeEvidence(vdir, spec, tier, seed, a, time.Since(start).Seconds(), buildSecs, runSecs, violations, nw, treeFingerprint(repo))
@@ -490,10 +559,12 @@ func writeEvidence(vdir string, spec *PropSpec, tier string, seed int64, a *agg,
 		"known_findings_hit":          a.knownHits,
 		"emulator_crashes":            a.crashes,
 		"watchdog_retries":            a.watchdogRetries,
-		"profiles":                    a.profiles,
-		"workers":                     workers,
-		"build_s":                     buildSecs,
-		"tree":                        tree,
+		"race_pass_runs":              a.raceRuns,
+		"race_pass_reports_in_harness_code_ignored": a.raceIgnored,
+		"profiles": a.profiles,
+		"workers":  workers,
+		"build_s":  buildSecs,
+		"tree":     tree,
 		"real_vs_stub": map[string]string{
 			"real": "lambda/rapidcore, lambda/rapid, lambda/rapi (server, routers, middleware, handlers, rendering), lambda/core, appctx, fatalerror, interop, agents, extensions, telemetry no-op tracer, metering except Monotime, cmd/aws-lambda-rie handlers/bootstrap/util, net/http server, chi, uuid, logrus",
 			"stub": "child processes and kernel (fake ProcessSupervisor), TCP (in-memory conns), clocks (bubble), main()/flags/startHTTPServer, sync.Mutex/RWMutex/Once (scheduler-owned), HTTP clients of runtime/extensions/callers (hand-written HTTP/1.1 client)",
@@ -530,4 +601,28 @@ func sortedKeys(m map[string]struct{}) []string {
 	}
 	sort.Strings(k)
 	return k
+}
+
+// anchorFiles returns the files the property is anchored in (properties.jsonl): the race pass only counts a data
+// race between two accesses that both lie in them.
+func anchorFiles(vdir, id string) []string {
+	f, err := os.Open(filepath.Join(vdir, "properties.jsonl"))
+	if err != nil {
+		return nil
+	}
+	defer f.Close()
+	sc := bufio.NewScanner(f)
+	sc.Buffer(make([]byte, 1<<20), 16<<20)
+	for sc.Scan() {
+		var p struct {
+			ID      string `json:"id"`
+			Anchors struct {
+				Files []string `json:"files"`
+			} `json:"anchors"`
+		}
+		if json.Unmarshal(sc.Bytes(), &p) == nil && p.ID == id {
+			return p.Anchors.Files
+		}
+	}
+	return nil
 }
